@@ -241,6 +241,23 @@ def check(ctx):
            detail=str([short(t) for t, _, _ in upd_calls] + [short(t) for t in others]),
            stmt="auto-update sweep " + str([pretty(t)[:60] for t, _, _ in upd_calls]
                                            + [pretty(t)[:60] for t in others]))
+    # the switch itself: a model starts with auto-update ON, the property reads the field
+    # the constructor / setter write, and the setter stores what it is given
+    mc_ = repo.cls("liesel.model.model.Model")
+    mi_ = method(repo, mc_, "__init__", own=True)
+    au0 = [val for loc, val, _, _ in evaluate(repo, mi_).stores
+           if loc == ("a", n("self"), "_auto_update")]
+    aug = mc_.own_method("auto_update", "getter") or mc_.own_method("auto_update")
+    aus = mc_.own_method("auto_update", "setter")
+    rg_ = evaluate(repo, aug).ret() if aug is not None else None
+    ss_ = [(loc, val) for loc, val, _, cond in evaluate(repo, aus).stores] if aus is not None else []
+    ctx.ob("C01.R4", mi_, "a new model has auto-update switched on; Model.auto_update reads and "
+                          "writes that one field", au0 == [c(True)]
+           and rg_ == ("a", n("self"), "_auto_update") and aus is not None
+           and ss_ == [(("a", n("self"), "_auto_update"), n(aus.pos_params()[1]))],
+           detail=f"initial {[short(v, 30) for v in au0]}; getter {short(rg_ or ())}; "
+                  f"setter {[(pretty(l), pretty(v)) for l, v in ss_]}",
+           stmt="auto_update switch")
     base_flag = method(repo, base, "flag_outdated", own=True)
     rf = evaluate(repo, base_flag)
     st = [s for s in rf.stores if s[0] == ("a", SELF, "_outdated")]
@@ -459,6 +476,13 @@ def check(ctx):
           and r4[2][1] == ("a", ("proj", ("iter", r4[3][0][1]), 1), "state")
           and not r4[3][0][2])
     ctx.ob("C01.R7", mg, "Model.state reads the state of every node", ok, detail=short(r4 or ()))
+
+    # ---- shared mechanisms: the neighbour's rules run as obligations of this property
+    ctx.include("C03", "C01.R9", only=['C03.R1'])
+    ctx.rule("R9", "shared mechanisms, run as obligations of this property: making an "
+                   "interface / Goose model / Gibbs kernel from a model copies it through "
+                   "backup -> clear -> deepcopy -> restore of the COMPLETE node states, so "
+                   "pending outdated flags of the user's model survive (C03.R1).")
 
 
 def _walk_own(fnode):
